@@ -10,7 +10,8 @@ use vcommon::{
     rx::{RxCase, ALL_TARGETS},
 };
 
-use crate::{c03, c11, c13};
+use crate::{c02, c03, c06, c08, c09, c10, c11, c13, c18, c20};
+use vcommon::srvgen::Features;
 
 pub fn hex(bytes: &[u8]) -> String {
     bytes.iter().map(|b| format!("{b:02x}")).collect()
@@ -207,6 +208,167 @@ pub fn chain_alias(data: &[u8]) -> CaseResult {
     }
 }
 
+// ---- structured targets for the history / schedule properties ----
+//
+// Each decoder reads the same raw values the property's proptest strategy draws (small integers
+// that are then resolved by the same pure functions), so the fuzz target explores exactly the
+// check's case space - coverage feedback instead of a uniform draw decides where to go.
+
+fn chunk_plan(u: &mut Unstructured<'_>) -> arbitrary::Result<vcommon::frames::ChunkPlan> {
+    use vcommon::frames::ChunkPlan as P;
+    Ok(match u.int_in_range(0u8..=10)? {
+        0 => P::One,
+        1 => P::ByteAtATime,
+        2 | 3 => P::AtNuls(u.int_in_range(-2i32..=2)?),
+        4 | 5 => P::AtSteps(u.int_in_range(-2i32..=2)?),
+        6 => P::Fixed(u.int_in_range(1usize..=599)?),
+        _ => {
+            let n = u.int_in_range(0usize..=7)?;
+            P::Cuts((0..n).map(|_| u.arbitrary::<u16>()).collect::<arbitrary::Result<Vec<u16>>>()?)
+        }
+    })
+}
+
+fn raw_conn(u: &mut Unstructured<'_>, f: Features) -> arbitrary::Result<vcommon::srvgen::RawConn> {
+    use vcommon::srvgen::{RawCall, RawConn};
+    let n = u.int_in_range(0usize..=f.max_calls)?;
+    let mut calls = Vec::with_capacity(n);
+    for _ in 0..n {
+        let pad = match u.int_in_range(0u8..=6)? {
+            0..=4 => u.int_in_range(0u16..=5)?,
+            5 => u.int_in_range(150u16..=299)?,
+            _ => u.int_in_range(0u16..=599)?,
+        };
+        let fault = if f.faults && u.ratio(1u8, 8u8)? { Some(u.int_in_range(0u8..=vcommon::srv::FAULT_KINDS.len() as u8 + 3)?) } else { None };
+        calls.push(RawCall {
+            kind: u.int_in_range(0u8..=7)?,
+            oneway: f.oneway && u.ratio(3u8, 10u8)?,
+            pad,
+            flags_first: u.arbitrary()?,
+            fault,
+            soup: (u.arbitrary()?, u.int_in_range(0u16..=899)?),
+        });
+    }
+    Ok(RawConn {
+        calls,
+        plan: chunk_plan(u)?,
+        end: if f.faults { u.int_in_range(0u8..=5)? } else { 0 },
+        truncate_last: f.faults && u.ratio(1u8, 5u8)?,
+        write_fail: if f.faults && u.ratio(1u8, 7u8)? { Some(u.int_in_range(0u8..=5)?) } else { None },
+    })
+}
+
+fn general_scenario(u: &mut Unstructured<'_>, f: Features) -> arbitrary::Result<vcommon::srv::Scenario> {
+    let n = u.int_in_range(1usize..=f.max_conns)?;
+    let conns = (0..n).map(|_| raw_conn(u, f)).collect::<arbitrary::Result<Vec<_>>>()?;
+    let k = u.int_in_range(0usize..=39)?;
+    let steps = (0..k).map(|_| Ok((u.arbitrary()?, u.arbitrary()?, u.arbitrary()?))).collect::<arbitrary::Result<Vec<(u8, u8, u8)>>>()?;
+    let c = u.int_in_range(0usize..=7)?;
+    let closing = (0..c).map(|_| Ok((u.arbitrary()?, u.arbitrary()?))).collect::<arbitrary::Result<Vec<(u8, u8)>>>()?;
+    Ok(vcommon::srvgen::assemble(f, &conns, &steps, &closing))
+}
+
+fn c18_scenario(u: &mut Unstructured<'_>, transitions: bool) -> arbitrary::Result<vcommon::srv::Scenario> {
+    let n = u.int_in_range(2usize..=5)?;
+    let mut roles = Vec::with_capacity(n);
+    for _ in 0..n {
+        let sel = u.int_in_range(0u8..=if transitions { 9 } else { 5 })?;
+        let k = u.int_in_range(1usize..=3)?;
+        roles.push((sel, (0..k).map(|_| u.arbitrary::<u8>()).collect::<arbitrary::Result<Vec<u8>>>()?));
+    }
+    let k = u.int_in_range(0usize..=39)?;
+    let raw = (0..k).map(|_| Ok((u.arbitrary()?, u.arbitrary()?))).collect::<arbitrary::Result<Vec<(u8, u8)>>>()?;
+    Ok(c18::build(transitions, &roles, &raw))
+}
+
+/// Number of lanes of `srv_sim` (the first input byte selects one).
+pub const SRV_LANES: u8 = 8;
+
+/// C08 / C09 / C10 / C18 (and C07's server lane): byte 0 selects the lane, the rest is decoded into
+/// a scenario of that lane's generator; it is run against `Server::run` and judged by that lane's
+/// oracle.
+pub fn srv_sim(data: &[u8]) -> CaseResult {
+    let Some((&lane, rest)) = data.split_first() else { return Ok(()) };
+    // a campaign run for one property restricts the lanes (VERIF_SRV_LANES=0,7); replays run all
+    static ALLOWED: std::sync::OnceLock<Option<Vec<u8>>> = std::sync::OnceLock::new();
+    let allowed = ALLOWED.get_or_init(|| std::env::var("VERIF_SRV_LANES").ok().map(|v| v.split(',').filter_map(|x| x.trim().parse().ok()).collect()));
+    if allowed.as_ref().is_some_and(|a| !a.contains(&(lane % SRV_LANES))) {
+        return Ok(());
+    }
+    let mut u = Unstructured::new(rest);
+    let mut stats = Stats::default();
+    let big = Features { max_conns: 6, max_calls: 8, oneway: true, subs: true, faults: false };
+    let sc = match lane % SRV_LANES {
+        0 => general_scenario(&mut u, c08::FEATURES),
+        1 => general_scenario(&mut u, c09::FEATURES).map(c09::with_late_conn),
+        2 => general_scenario(&mut u, Features { subs: true, ..c09::FEATURES }).map(c09::with_late_conn),
+        3 => general_scenario(&mut u, c10::FEATURES),
+        4 => general_scenario(&mut u, Features { faults: true, ..c10::FEATURES }),
+        5 => c18_scenario(&mut u, false),
+        6 => c18_scenario(&mut u, true),
+        _ => general_scenario(&mut u, big),
+    };
+    let Ok(sc) = sc else { return Ok(()) };
+    match lane % SRV_LANES {
+        0 => c08::check_scenario(&sc, &mut stats),
+        1 | 2 => c09::check_scenario(&sc, &mut stats),
+        5 => c18::check(&sc, &mut stats, false),
+        6 => c18::check(&sc, &mut stats, true),
+        _ => c10::check_scenario(&sc, &mut stats),
+    }
+}
+
+/// C02: a history of enqueue / send / flush operations.
+pub fn tx_hist(data: &[u8]) -> CaseResult {
+    let mut u = Unstructured::new(data);
+    let Ok(case) = c02::case_from_bytes(&mut u) else { return Ok(()) };
+    c02::check_case(&case, &mut Stats::default())
+}
+
+/// C06: a chain, its reply script, trailing frames and the chunking.
+pub fn chain_rx(data: &[u8]) -> CaseResult {
+    fn decode(u: &mut Unstructured<'_>) -> arbitrary::Result<c06::Case> {
+        let n = u.int_in_range(1usize..=6)?;
+        let mut calls = Vec::with_capacity(n);
+        for _ in 0..n {
+            let kind = [c06::Kind::Plain, c06::Kind::Oneway, c06::Kind::More][u.int_in_range(0usize..=2)?];
+            let pad = match u.int_in_range(0u8..=5)? {
+                0..=3 => u.int_in_range(0u16..=7)?,
+                4 => u.int_in_range(180u16..=299)?,
+                _ => u.int_in_range(0u16..=699)?,
+            };
+            calls.push(c06::CallSpec { kind, k: u.int_in_range(0u8..=3)?, err: [0u8, 0, 0, 1, 2][u.int_in_range(0usize..=4)?], explicit_false: u.arbitrary()?, pad });
+        }
+        let trailing = u.int_in_range(0u8..=2)?;
+        let plan = chunk_plan(u)?;
+        let k = u.int_in_range(0usize..=3)?;
+        let pend = (0..k).map(|_| u.int_in_range(0u8..=2)).collect::<arbitrary::Result<Vec<u8>>>()?;
+        let mut case = c06::Case { calls, trailing, cuts: vec![], pend };
+        case.cuts = vcommon::frames::resolve_cuts(&plan, &case.reply_stream_bytes());
+        Ok(case)
+    }
+    let mut u = Unstructured::new(data);
+    let Ok(case) = decode(&mut u) else { return Ok(()) };
+    c06::check_case(&case, &mut Stats::default())
+}
+
+/// C20: an operation list over the notified state of both runtimes (one byte per operation).
+pub fn notified(data: &[u8]) -> CaseResult {
+    let ops: Vec<c20::Op> = data
+        .iter()
+        .take(48)
+        .map(|b| match b % 14 {
+            0..=3 => c20::Op::Set,
+            4 => c20::Op::SetClone,
+            5 | 6 => c20::Op::Sub,
+            7..=11 => c20::Op::Poll((b / 14) % 3),
+            12 => c20::Op::Clone,
+            _ => c20::Op::DropOriginal,
+        })
+        .collect();
+    c20::check_case(&c20::Case { ops }, &mut Stats::default())
+}
+
 /// Dispatch by target name (used by the replay path).
 pub fn run_target(name: &str, data: &[u8]) -> CaseResult {
     match name {
@@ -214,6 +376,43 @@ pub fn run_target(name: &str, data: &[u8]) -> CaseResult {
         "json_ser" => json_ser(data),
         "frames_rx" => frames_rx(data),
         "chain_alias" => chain_alias(data),
+        "srv_sim" => srv_sim(data),
+        "tx_hist" => tx_hist(data),
+        "chain_rx" => chain_rx(data),
+        "notified" => notified(data),
         other => Err(Fail::new("bad-replay", format!("unknown fuzz target {other}"))),
     }
+}
+
+/// `vcheck fuzz-selftest`: drive every structured target with pseudo-random inputs in process (no
+/// fuzzer): the decoders must terminate, produce runnable cases and the unchanged tree must pass.
+pub fn selftest() -> i32 {
+    let mut bad = 0;
+    for t in ["srv_sim", "tx_hist", "chain_rx", "notified", "frames_rx", "chain_alias", "json_ser"] {
+        let mut x = 0x2545_F491_4F6C_DD1Du64;
+        let mut failed = 0;
+        let n = 3000;
+        for i in 0..n {
+            let len = 1 + (i % 400);
+            let mut data = Vec::with_capacity(len);
+            while data.len() < len {
+                x ^= x << 13;
+                x ^= x >> 7;
+                x ^= x << 17;
+                data.extend_from_slice(&x.to_le_bytes());
+            }
+            data.truncate(len);
+            let mut st = Stats::default();
+            let r = vcommon::drv::guarded(&data, &mut st, &|d: &Vec<u8>, _| run_target(t, d));
+            if let Err(f) = r {
+                if failed == 0 {
+                    println!("{t}: input {} fails its oracle: [{}] {}", hex(&data), f.sig, f.message);
+                }
+                failed += 1;
+            }
+        }
+        println!("{t}: {n} pseudo-random inputs, {failed} failing");
+        bad += failed;
+    }
+    if bad == 0 { 0 } else { 1 }
 }
